@@ -5,7 +5,7 @@ func init() { register("C01", checkC01) }
 func checkC01(p *Program, tier string) *Result {
 	r := newResult("C01")
 	r.Explanation = "R-LAYOUT: the wire layout of the header, the packet and the seven AAA bodies is extracted symbolically from each MarshalBinary (statement order of the typed AST: appends, 16-bit helper, per-argument loops, positional stores and big-endian puts) and each UnmarshalBinary (fixed offsets, cursor reads in order, every length variable bound to the field whose bytes it measures), and both must equal a layout table written independently from RFC 8907 §4.1, §5.1–5.3, §6.1–6.2, §7.1–7.2; the cursor helpers and the 16-bit append helper are summarised from their own bodies. R-ENUM: the numeric values of the protocol constants equal an independent RFC table, and each enum type's Validate accepts exactly its declared constants."
-	ruleLayout(p, r)
+	ruleLayout(p, r, "ed", true)
 	ruleEnum(p, r)
 	r.Trusted = append(r.Trusted, "append, copy, encoding/binary.BigEndian do what their documentation says", "the hand-written RFC 8907 tables in rule_layout.go and rule_enum.go")
 	r.Assumptions = append(r.Assumptions, "truncation of over-long fields is C02's subject", "the layouts do not depend on field values; lengths only scale bytes() items")
